@@ -507,7 +507,7 @@ def Field.wf : Field → Prop
   | .dataBare => True
   | .event sp v => validUtf8 v = true ∧ spOk sp v
   | .id sp v => validUtf8 v = true ∧ spOk sp v
-  | .retry sp v i => validUtf8 v = true ∧ spOk sp v ∧ pyInt v = .ok i
+  | .retry sp v i => validUtf8 v = true ∧ spOk sp v ∧ pyInt v = .ok i ∧ floatOk i = true
   | .comment _ => True
 
 /-- what the SSE field rules say a field does to the event under construction -/
@@ -583,8 +583,8 @@ theorem lineStep_field {ev : Ev} (hc : ev.closed = false) (f : Field) (hf : f.wf
   | retry sp v i =>
     have hs := strip_withSp hf.2.1
     simp only [Field.line]
-    rw [lineStep_named hc (by decide) (by decide) (by decide) (by rw [hs]; exact hf.1), hs, hf.2.2]
-    simp [fData, fEvent, fId, fRetry, Field.apply, setRetry]
+    rw [lineStep_named hc (by decide) (by decide) (by decide) (by rw [hs]; exact hf.1), hs, hf.2.2.1]
+    simp [fData, fEvent, fId, fRetry, Field.apply, setRetry, hf.2.2.2]
 
 @[simp] theorem apply_status (ev : Ev) (f : Field) : (f.apply ev).status = ev.status := by
   cases f <;> rfl
